@@ -1711,6 +1711,9 @@ class SecurityBase(Node):
         if price is not None and not self._bidoffer_set:
             raise ValueError('Cannot transact at custom prices when "bidoffer" has not been passed during setup to enable bid-offer tracking.')
 
+        if price is not None and np.isnan(price):
+            raise ValueError("Cannot transact %s at a custom price of NaN on %s." % (self.name, self.parent.now))
+
         # this security will need an update, even if pos is 0 (for example if
         # we close the positions, value and pos is 0, but still need to do that
         # last update)
